@@ -87,12 +87,18 @@ class Batch(Part):
         cases = []
         # spec -> code: every initial mix of new / evaluated designs x repeats, from the model
         for nd in (1, 2, 3, 4):
+            pres = {}
             for b in behaviours(ctx, nd, 1, "", "serial", 3, "JobGen-serial-%d" % nd):
+                pres[tuple(b["pre"])] = b
+            for b in pres.values():
                 for variant in range(2 if ctx.quick else 6):
                     cases.append({"kind": "beh", "pre": b["pre"], "rounds": 3, "workers": 1,
                                   "cseed": rng.randrange(1 << 30)})
         for nd in (2, 3):
-            for b in behaviours(ctx, nd, 2, "", "parallel", 2, "JobGen-par-%d" % nd, cap=40):
+            pres = {}
+            for b in behaviours(ctx, nd, 2, "", "parallel", 2, "JobGen-par-%d" % nd):
+                pres[tuple(b["pre"])] = b
+            for b in pres.values():
                 cases.append({"kind": "beh", "pre": b["pre"], "rounds": 2, "workers": 2, "cseed": rng.randrange(1 << 30)})
         # code -> spec: larger random batches
         for _ in range(60 if ctx.quick else 800):
